@@ -91,7 +91,34 @@ def requires(c):
     return z3.And(n_of(zf) >= 0, sizes_nonneg(zf), L["total"] >= 0)
 
 
-def loop_inv(lc):
+def entry_loop_roles():
+    """(engine loop ordinal, {"file_size": local, "compress_size": local}) of the entry loop of the REAL validate_zipfile, the
+    accumulators bound by role from the data flow (contracts/C11_roles.py); (0, reason) when the roles cannot be read off."""
+    import ast as _ast
+    from pyvc import loader
+    from contracts import C11_roles
+    try:
+        m = loader.module(ZB)
+        _k, lp, roles = C11_roles.loop_ordinal_and_roles(m, "validate_zipfile")
+        fnode = m.functions["validate_zipfile"]
+        loops = sorted((n for n in _ast.walk(fnode) if isinstance(n, (_ast.For, _ast.While))), key=lambda n: (n.lineno, n.col_offset))
+        return loops.index(lp), roles
+    except LookupError as e:
+        return 0, str(e)
+    except (OSError, SyntaxError, KeyError) as e:
+        return 0, f"{type(e).__name__}: {e}"
+
+
+def make_loop_inv(roles):
+    def inv(lc):
+        if not isinstance(roles, dict):
+            from pyvc.symex import Unsupported
+            raise Unsupported(f"running totals of the entry loop not identified: {roles}")
+        return loop_inv(lc, roles)
+    return inv
+
+
+def loop_inv(lc, roles):
     zf = lc.entry.lookup("zf").t
     Ld = lc.entry.obj(lc.entry.lookup("limits").ref).data
     L = {"total": Ld["max_total_uncompressed_bytes"].t, "single": Ld["max_single_uncompressed_bytes"].t,
@@ -99,8 +126,8 @@ def loop_inv(lc):
     i = lc.i
     j = z3.Int("j!inv")
     return z3.And(
-        ops.int_term(lc["total_uncompressed"]) == SU(zf, i),
-        ops.int_term(lc["total_compressed"]) == SC(zf, i),
+        ops.int_term(lc[roles["file_size"]]) == SU(zf, i),          # the local that accumulates file_size (bound by role)
+        ops.int_term(lc[roles["compress_size"]]) == SC(zf, i),     # the local that accumulates compress_size
         SU(zf, i) <= L["total"],
         z3.ForAll([j], z3.Implies(z3.And(j >= 0, j < i), z3.Not(entry_bad(info_at(zf, j), L))),
                   patterns=[info_at(zf, j)]),
@@ -173,9 +200,48 @@ LIMITS = p_obj("ZipBombLimits", {
     "max_total_compression_ratio": p_real(), "max_entry_compression_ratio": p_real()})
 
 
+def G(fn):
+    """Contract clause guarded against shapes it was not written for: a Python exception inside a clause on changed code is a
+    failure of the sidecar to line up with the code (OUT-OF-SUBSET -> native replay decides), never an engine error."""
+    from pyvc.ops import Unsupported
+
+    def guarded(*a, **k):
+        try:
+            return fn(*a, **k)
+        except Unsupported:
+            raise
+        except (TypeError, KeyError, AttributeError, IndexError, ValueError, z3.Z3Exception) as e:
+            raise Unsupported(f"contract clause `{getattr(fn, '__name__', 'clause')}` does not fit this shape of the code "
+                              f"({type(e).__name__}: {str(e)[:120]})")
+    guarded.__name__ = getattr(fn, "__name__", "clause")
+    return guarded
+
+
+def _guard_contract(c):
+    for attr in ("requires", "hyps", "returns"):
+        f = getattr(c, attr, None)
+        if callable(f):
+            setattr(c, attr, G(f))
+    c.ensures = [(lab, G(f)) for (lab, f) in (c.ensures or [])]
+    for r in (c.raises or []):
+        if callable(getattr(r, "when", None)):
+            r.when = G(r.when)
+    for k, ls in (c.loops or {}).items():
+        if callable(getattr(ls, "inv", None)):
+            ls.inv = G(ls.inv)
+    if callable(getattr(c, "result_maker", None)):
+        c.result_maker = G(c.result_maker)
+    return c
+
+
 def contracts(reg):
+    return [_guard_contract(c) for c in _contracts(reg)]
+
+
+def _contracts(reg):
     install_models(reg)
     out = []
+    loop_k, roles = entry_loop_roles()
     out.append(FnContract(
         target=f"{ZB}::_is_directory",
         params=[("info", p_ext("ZipInfo"))],
@@ -191,7 +257,7 @@ def contracts(reg):
         raises=[Raises("ExtractionZipBombError",
                        when=lambda c: z3.Or(z3.BoolVal(bool(c.st.ghost.get("infolist_failed"))),
                                             spec_reject(c.args["zf"].t, limits_of(c))))],
-        loops={0: LoopSpec(inv=loop_inv, label="entries")},
+        loops={loop_k: LoopSpec(inv=make_loop_inv(roles), label="entries")},
     ))
     def pos_restored(c):
         return common.bytesio_pos(c.st, c.args["file_like"]) == common.bytesio_pos(c.entry, c.args["file_like"])
@@ -242,323 +308,46 @@ def lemmas():
     ]
 
 
-# ------------------------------------------------------- policy / typestate --
-ALLOWED_ZIPFILE_CTOR = {"sharepoint2text/parsing/extractors/util/zip_bomb.py",
-                        "sharepoint2text/parsing/extractors/archive_extractor.py"}
+# ------------------------------------- policy / typestate / error propagation --
+# Interprocedural dataflow obligations over the real package AST: contracts/C11_flow.py
+from contracts.C11_flow import policy, propagation  # noqa: E402
 
 
-def canonical_call(mod, call):
-    """Dotted origin of a call target using the module's import table."""
-    import ast as _ast
-    from pyvc.flow import dotted
-    d = dotted(call.func)
-    if not d:
-        return ""
-    head, _, rest = d.partition(".")
-    origin = mod.imports.get(head)
-    if origin:
-        return origin + ("." + rest if rest else "")
-    return d
+# --------------------------------------------------------------- executor --
+from pyvc import verify as _verify  # noqa: E402
 
 
-def policy(repo, tier):
-    import ast as _ast
-    from pyvc import loader
-    from pyvc.flow import MustFacts, ground_obligation, dotted
-    obls, fns = [], []
-    files = loader.all_package_files(repo)
-    mods = {f: loader.module(f, repo) for f in files}
-    # P1: the only constructors of zipfile containers live in zip_bomb.py / archive_extractor.py
-    bad = []
-    n_sites = 0
-    for f, m in mods.items():
-        for call in (n for n in _ast.walk(m.tree) if isinstance(n, _ast.Call)):
-            c = canonical_call(m, call)
-            if c.startswith("zipfile.") and c.split(".")[1] in ("ZipFile", "PyZipFile", "Path") or c == "shutil.unpack_archive":
-                n_sites += 1
-                if f not in ALLOWED_ZIPFILE_CTOR:
-                    bad.append(f"{f}:{call.lineno} {c}")
-    obls.append(ground_obligation("C11/package/policy#zipfile-constructed-only-in-guard-and-archive-modules",
-                                  not bad and n_sites >= 1, "; ".join(bad) or f"{n_sites} sites", "package"))
-    # P2: ZipContext family: the container handle comes from open_zipfile, before any member access
-    zc = mods["sharepoint2text/parsing/extractors/util/zip_context.py"]
-    cls = zc.classes.get("ZipContext")
-    ok, why = True, []
-    if cls is None:
-        ok, why = False, ["ZipContext missing"]
-    else:
-        init = zc.functions.get("ZipContext.__init__")
-        assigns = [n for n in _ast.walk(cls) if isinstance(n, _ast.Assign) and any(
-            isinstance(t, _ast.Attribute) and t.attr == "_zip" for t in n.targets)]
-        for a_ in assigns:
-            src = canonical_call(zc, a_.value) if isinstance(a_.value, _ast.Call) else ""
-            if not src.endswith("zip_bomb.open_zipfile"):
-                ok = False
-                why.append(f"_zip assigned from {_ast.unparse(a_.value)} at line {a_.lineno}")
-        if not assigns:
-            ok = False
-            why.append("no assignment of _zip")
-        if init is not None:
-            mf = MustFacts(
-                gen=lambda call: (),
-                need=lambda n: [("validated", f"line {n.lineno}")] if isinstance(n, _ast.Call) and isinstance(n.func, _ast.Attribute)
-                and _ast.unparse(n.func.value) == "self._zip" else [])
-            # the assignment statement generates the fact: model it via gen on the open_zipfile call
-            mf.gen = lambda call: ["validated"] if canonical_call(zc, call).endswith("zip_bomb.open_zipfile") else []
-            for r in mf.run(init):
-                if not r.ok:
-                    ok = False
-                    why.append(f"member access before validation in __init__ {r.desc}")
-        # other methods may only use self._zip (created validated); nothing else opens containers (P1)
-    fns.append(dict(zc.fn_info("ZipContext.__init__"), obligations=1) if cls is not None else {})
-    obls.append(ground_obligation("C11/zip_context.py::ZipContext/typestate#handle-from-open_zipfile-before-any-access",
-                                  ok, "; ".join(why), "zip_context.py"))
-    # P3: subclasses of ZipContext do not bypass __init__
-    fam = {"ZipContext"}
-    changed = True
-    classes = []
-    while changed:
-        changed = False
-        for f, m in mods.items():
-            for cname, cnode in m.classes.items():
-                bases = {_ast.unparse(b).split(".")[-1] for b in cnode.bases}
-                if bases & fam and cname not in fam:
-                    fam.add(cname)
-                    classes.append((f, m, cname, cnode))
-                    changed = True
-    bad = []
-    for f, m, cname, cnode in classes:
-        init = m.functions.get(f"{cname}.__init__")
-        if init is None:
-            continue
-        first_calls = [n for n in _ast.walk(init) if isinstance(n, _ast.Call)]
-        sup = [n for n in first_calls if _ast.unparse(n.func) in ("super().__init__", "ZipContext.__init__", "OOXMLZipContext.__init__")]
-        if not sup:
-            bad.append(f"{f}:{cname}.__init__ does not call super().__init__")
-            continue
-        mf = MustFacts(gen=lambda call: ["validated"] if _ast.unparse(call.func) in ("super().__init__", "ZipContext.__init__", "OOXMLZipContext.__init__") else [],
-                       need=lambda n: [("validated", f"{cname} line {n.lineno}")] if isinstance(n, _ast.Call) and isinstance(n.func, _ast.Attribute)
-                       and (_ast.unparse(n.func.value) in ("self._zip",) or (_ast.unparse(n.func.value) == "self" and n.func.attr in
-                            ("read_xml_root", "read_text", "read_bytes", "open_stream", "exists"))) else [])
-        for r in mf.run(init):
-            if not r.ok:
-                bad.append(f"{f}:{r.desc} uses the container before super().__init__")
-        # overriding the handle
-        for n in _ast.walk(cnode):
-            if isinstance(n, _ast.Assign) and any(isinstance(t, _ast.Attribute) and t.attr == "_zip" for t in n.targets):
-                bad.append(f"{f}:{cname} reassigns _zip at line {n.lineno}")
-    obls.append(ground_obligation("C11/package/typestate#ZipContext-subclasses-initialise-through-validated-base",
-                                  not bad and len(classes) >= 6, "; ".join(bad) or f"{len(classes)} subclasses: {sorted(c[2] for c in classes)}", "package"))
-    # P4: openpyxl.load_workbook only on bytes that passed validate_zip_bytesio (same variable, not reassigned)
-    def bytes_key(arg):
-        if isinstance(arg, _ast.Call) and dotted(arg.func) in ("io.BytesIO", "BytesIO") and arg.args:
-            return _ast.unparse(arg.args[0])
-        return _ast.unparse(arg)
-    bad, n_live, n_dead = [], 0, 0
-    for f, m in mods.items():
-        callers = {}
-        for q, fnode in m.functions.items():
-            uses = [n for n in _ast.walk(fnode) if isinstance(n, _ast.Call) and canonical_call(m, n).endswith("load_workbook")
-                    and not any(n in list(_ast.walk(inner)) for qq, inner in m.functions.items() if qq != q and qq.startswith(q + "."))]
-            if not uses:
+class C11Executor(_verify.Executor):
+    """Instances of a `@dataclass(frozen=True)` class of the module (read from the real decorator list) are immutable:
+    handing one to a helper inside a loop (`_check_entry(info, limits, source)`) does not havoc it at the loop cut."""
+
+    def _frozen_classes(self):
+        import ast as _ast
+        out = getattr(self, "_frozen", None)
+        if out is None:
+            out = set()
+            for name, c in self.module.classes.items():
+                for d in c.decorator_list:
+                    if isinstance(d, _ast.Call) and _ast.unparse(d.func).split(".")[-1] == "dataclass" and any(
+                            k.arg == "frozen" and isinstance(k.value, _ast.Constant) and k.value.value is True for k in d.keywords):
+                        if not any(isinstance(n, _ast.FunctionDef) and n.name in ("__setattr__", "__post_init__") for n in c.body):
+                            out.add(name)
+            self._frozen = out
+        return out
+
+    def mutated_refs(self, stmts, st):
+        refs = super().mutated_refs(stmts, st)
+        frozen = self._frozen_classes()
+        keep = set()
+        for r in refs:
+            o = st.heap.get(r)
+            if o is not None and o.kind == "obj" and o.cls in frozen:
                 continue
-            mf = MustFacts(
-                gen=lambda call: [("validated", bytes_key(call.args[0]))] if canonical_call(m, call).endswith("zip_bomb.validate_zip_bytesio") and call.args else [],
-                need=lambda n: [(("validated", bytes_key(n.args[0])), f"{f}:{n.lineno}")] if isinstance(n, _ast.Call)
-                and canonical_call(m, n).endswith("load_workbook") and n.args else [],
-                kill_names=lambda fact: [fact[1]] if isinstance(fact, tuple) else [])
-            res = mf.run(fnode)
-            undominated = [r for r in res if not r.ok]
-            if not undominated:
-                n_live += len(res)
-                continue
-            # the function itself must then only be reachable after validation: require no call sites at all
-            name = q.split(".")[-1]
-            sites = []
-            for f2, m2 in mods.items():
-                for n in _ast.walk(m2.tree):
-                    if isinstance(n, _ast.Call) and dotted(n.func).split(".")[-1] == name:
-                        modpath = f[:-3].replace("/", ".")
-                        if f2 == f or canonical_call(m2, n).startswith(modpath):
-                            sites.append(f"{f2}:{n.lineno}")
-            if sites:
-                bad.append(f"{undominated[0].desc} load_workbook not dominated by validate_zip_bytesio; {q} is called at {sites}")
-            else:
-                n_dead += len(undominated)
-    obls.append(ground_obligation("C11/xlsx_extractor.py::load_workbook/typestate#validated-before-openpyxl-reads",
-                                  not bad and n_live >= 1, "; ".join(bad) or f"{n_live} dominated site(s), {n_dead} site(s) in functions without call sites", "xlsx_extractor.py"))
-    # P5: the ODF encryption probe reads the manifest through open_zipfile
-    enc = mods["sharepoint2text/parsing/extractors/util/encryption.py"]
-    fn = enc.functions.get("is_odf_encrypted")
-    ok = False
-    why = "is_odf_encrypted missing"
-    if fn is not None:
-        withs = [n for n in _ast.walk(fn) if isinstance(n, _ast.With)]
-        reads = [n for n in _ast.walk(fn) if isinstance(n, _ast.Call) and isinstance(n.func, _ast.Attribute) and n.func.attr in ("read", "open")]
-        ok = bool(reads) and all(any(r in list(_ast.walk(w)) and isinstance(w.items[0].context_expr, _ast.Call)
-                                     and canonical_call(enc, w.items[0].context_expr).endswith("zip_bomb.open_zipfile")
-                                     and _ast.unparse(r.func.value) == _ast.unparse(w.items[0].optional_vars) for w in withs) for r in reads)
-        why = f"{len(reads)} member read(s)"
-        fns.append(dict(enc.fn_info("is_odf_encrypted"), obligations=1))
-    obls.append(ground_obligation("C11/encryption.py::is_odf_encrypted/typestate#manifest-read-through-open_zipfile", ok, why, "encryption.py"))
-    return {"obligations": obls, "functions": [f for f in fns if f]}
+            keep.add(r)
+        return keep
 
 
-# ------------------------------------------------- zip-bomb error propagation --
-ZBERR = "ExtractionZipBombError"
-
-
-def propagation(repo, tier):
-    """"...it is rejected with the zip-bomb error": at every call site of a function that can raise ExtractionZipBombError
-    (validate_zipfile and, transitively, every package function a bomb error propagates out of: open_zipfile, validate_zip_bytesio,
-    the ZipContext family constructors, is_odf_encrypted, the read_* extractors) the exception leaves the calling function
-    unchanged: every enclosing `try` whose handler list catches it (ExtractionZipBombError, a base class, or a bare except)
-    re-raises it as it is.  Exceptional postcondition per call site, decided by AST dominance over the handler lists
-    (class hierarchy from the real exception module); callee resolution is by defining / imported module."""
-    import ast as _ast
-    from pyvc import loader
-    from pyvc.exctypes import Universe
-    from pyvc.flow import dotted, ground_obligation
-    uni = Universe(repo)
-    files = [f for f in loader.all_package_files(repo) if "/tests/" not in f]
-    mods = {f: loader.module(f, repo) for f in files}
-    by_modpath = {f[:-3].replace("/", "."): f for f in files}
-
-    def resolve(m, f, name):
-        """(file, name) of the definition a bare / imported name refers to in module m."""
-        if name in m.functions or name in m.classes:
-            return (f, name)
-        origin = m.imports.get(name)
-        if origin:
-            modpath, _, nm = origin.rpartition(".")
-            if modpath in by_modpath:
-                return (by_modpath[modpath], nm)
-        return None
-
-    bomb = {(ZB, "validate_zipfile")}
-
-    def class_is_bomb(f, cname, seen=()):
-        m = mods[f]
-        c = m.classes.get(cname)
-        if c is None or (f, cname) in seen:
-            return False
-        if (f, cname + ".__init__") in bomb:
-            return True
-        if f"{cname}.__init__" in m.functions:
-            return False
-        for b in c.bases:
-            r = resolve(m, f, _ast.unparse(b).split(".")[-1])
-            if r and class_is_bomb(r[0], r[1], seen + ((f, cname),)):
-                return True
-        return False
-
-    def catches(h):
-        if h.type is None:
-            return True
-        for t in (h.type.elts if isinstance(h.type, _ast.Tuple) else [h.type]):
-            n = _ast.unparse(t).split(".")[-1]
-            if n in ("BaseException", "Exception") or (uni.known(n) and uni.is_subclass(ZBERR, n)):
-                return True
-        return False
-
-    def reraises(h):
-        raises = [n for b in h.body for n in _ast.walk(b) if isinstance(n, _ast.Raise)]
-        if not raises or not isinstance(h.body[-1], _ast.Raise):
-            return False
-        for r in raises:
-            if r.exc is None:
-                continue
-            if h.name and isinstance(r.exc, _ast.Name) and r.exc.id == h.name and r.cause is None:
-                continue
-            return False
-        return True
-
-    def verdict(fn, call):
-        path = []
-
-        def find(node, stack):
-            for ch in _ast.iter_child_nodes(node):
-                if ch is call:
-                    path.extend(stack + [node])
-                    return True
-                if isinstance(ch, (_ast.FunctionDef, _ast.AsyncFunctionDef, _ast.Lambda)):
-                    continue
-                if find(ch, stack + [node]):
-                    return True
-            return False
-        find(fn, [])
-        tries = []
-        for i, n in enumerate(path):
-            if isinstance(n, _ast.Try):
-                nxt = path[i + 1] if i + 1 < len(path) else call
-                if any(nxt is b or any(nxt is x for x in _ast.walk(b)) for b in n.body):
-                    tries.append(n)
-                elif any(nxt is b or any(nxt is x for x in _ast.walk(b)) for b in n.finalbody) or True:
-                    pass
-        for t in reversed(tries):
-            for h in t.handlers:
-                if catches(h):
-                    if reraises(h):
-                        break
-                    return f"line {h.lineno}: `except {_ast.unparse(h.type) if h.type else ''}` converts or swallows the zip-bomb error raised at line {call.lineno}"
-            if any(isinstance(x, _ast.Return) for b in t.finalbody for x in _ast.walk(b)):
-                return f"line {t.lineno}: `finally` returns, which discards the zip-bomb error raised at line {call.lineno}"
-        return None
-
-    results = {}
-    changed = True
-    while changed:
-        changed = False
-        for f, m in mods.items():
-            for q, fn in m.functions.items():
-                own_calls = []
-                stack = list(_ast.iter_child_nodes(fn))
-                while stack:
-                    n = stack.pop()
-                    if isinstance(n, (_ast.FunctionDef, _ast.AsyncFunctionDef, _ast.Lambda)):
-                        continue
-                    if isinstance(n, _ast.Call):
-                        own_calls.append(n)
-                    stack.extend(_ast.iter_child_nodes(n))
-                for call in own_calls:
-                    d = dotted(call.func) or ""
-                    target = None
-                    is_super_init = isinstance(call.func, _ast.Attribute) and call.func.attr == "__init__" and isinstance(call.func.value, _ast.Call) \
-                        and dotted(call.func.value.func) == "super"
-                    if is_super_init and "." in q:
-                        c = m.classes.get(q.split(".")[0])
-                        for b in (c.bases if c is not None else []):
-                            r = resolve(m, f, _ast.unparse(b).split(".")[-1])
-                            if r and class_is_bomb(r[0], r[1]):
-                                target = (r[0], r[1])
-                    elif d and "." not in d:
-                        r = resolve(m, f, d)
-                        if r and (r in bomb or class_is_bomb(r[0], r[1])):
-                            target = r
-                    elif d:
-                        head, _, rest = d.partition(".")
-                        origin = m.imports.get(head)
-                        if origin and "." not in rest and origin in by_modpath and (by_modpath[origin], rest) in bomb:
-                            target = (by_modpath[origin], rest)
-                    if target is None:
-                        continue
-                    v = verdict(fn, call)
-                    results[(f, q, call.lineno, call.col_offset)] = (target, v)
-                    if v is None and (f, q) not in bomb:
-                        bomb.add((f, q))
-                        changed = True
-    obls = []
-    ordinals = {}
-    for (f, q, line, _col), (target, v) in sorted(results.items()):
-        k = ordinals.get((f, q, target[1]), 0)
-        ordinals[(f, q, target[1])] = k + 1
-        obls.append(ground_obligation(f"C11/{f.split('/')[-1]}::{q}/exc-ensures#zip-bomb-error-of-{target[1]}@{k}-propagates-unchanged",
-                                      v is None, v or f"line {line}", f"{f}:{line}", kind="exc-ensures"))
-    readers = sorted(q for (f, q) in bomb if q.startswith("read_"))
-    obls.append(ground_obligation("C11/package/exc-ensures#every-zip-container-extractor-is-reached-by-the-zip-bomb-error",
-                                  len(readers) >= 8 and len(obls) >= 20, f"{len(obls)} call sites; extractors: {readers}", "package", kind="exc-ensures", definite=False))
-    return {"obligations": obls, "functions": []}
-
+EXECUTOR = C11Executor
 
 EXTRA = [policy, propagation]
 
@@ -567,6 +356,8 @@ ASSUMED_MODELS = ["zipfile.ZipFile (constructor, infolist, close, context manage
                   "io.BytesIO.tell/seek"]
 ASSUMPTIONS = ["PY-INT", "PY-FLOAT-REAL: size ratios compared over the reals", "PY-EXC / EXC-ANY for library calls",
                "ZipInfo sizes are non-negative integers", "configured total-size limit is non-negative",
-               "policy obligations (zipfile constructor sites, validate-before-read) are decided by AST dominance analysis (back end 'dataflow')"]
+               "policy obligations (zipfile constructor sites, validate-before-read) are decided by an interprocedural must-dataflow analysis "
+               "(back end 'dataflow'; summaries for helpers, private helpers analysed in place); a fact the analysis cannot establish is "
+               "`unknown` and goes to the native event monitor (replay/C11.py), only a recognised bad shape is `refuted`"]
 
 REPLAY_UNKNOWN = True    # undecided / out-of-subset items are searched natively (replay) before being reported UNDECIDED
